@@ -35,7 +35,10 @@ class C08(Prop):
 
         api = st.tuples(gen_ir.recipes(self.cfg(tier)), st.booleans(), st.booleans()).map(
             lambda t: dict(t[0], with_ids=t[1], via_clone=t[2]))
-        ecfg = gen_ir.Cfg(unnamed=False, alphabet=NAMES, max_defs=6, max_children=4, max_width=3,
+        # (no names at the identifier length limit: name + _sdn_unique_N would pass it, the
+        # length-limit finding recorded under C17)
+        ecfg = gen_ir.Cfg(unnamed=False, alphabet=[n for n in NAMES if len(n) < 200], max_defs=6,
+                          max_children=4, max_width=3,
                           share=True, top="always", lib_monotone=True, reorder=False,
                           top_modes=["standalone"], data_values="edif")
         # netlists as the readers leave them (identifiers, EDIF policy, Verilog assignment library)
